@@ -150,7 +150,19 @@ lexicon, an EQU used by two other EQUs, `MaxCycles()` / `CoreSize()` / names and
 listings of handles in C13's query battery, a read-recording StateRecorder in
 C15).
 
-After these changes all 170 are reported. The table is generated from the last
+Seventh round: 17 more (one per property), regression variants: the agents
+read the `fix:` commits in the worktree's history (D1-D24 of section 11) and
+re-broke what had been repaired in a different way - the same kind of
+misbehaviour through another condition, operand, accessor, dialect or reader
+(`strings.EqualFold` instead of the ASCII test in the opcode lookup, a
+self-referential EQU no longer counted as a cycle, '88 mode checks on the A
+operand only, a sign counter per expression instead of per run, block labels
+lost when a FOR body holds only inner blocks, a final `END n` without newline
+dropped by the assembler, `END -1` accepted by the '94 load-file reader, a
+skipping SLT that queues address M, a typed-nil `GetWarrior`, DJN.F without a
+report, ...). All 17 were reported at once by the quick tier.
+
+After these changes all 187 are reported. The table is generated from the last
 run of every seed against the current machinery. (Two of the agents also
 pointed out defects of the unchanged tree while reading: D20 and D21 of
 section 11.)
